@@ -52,6 +52,10 @@ pub(crate) struct DhtHandler {
     refresh: TableRefresh,
     // Ongoing TableLookups.
     lookups: HashMap<ActionID, TableLookup>,
+    // Lookups requested before the initial bootstrap has finished.
+    pending_lookups: Vec<StartLookup>,
+    // Whether the initial bootstrap has finished, that is, whether lookups are started right away.
+    initial_bootstrap_finished: bool,
 }
 
 impl DhtHandler {
@@ -96,6 +100,8 @@ impl DhtHandler {
             bootstrap_txs: HashMap::new(),
             refresh: table_refresh,
             lookups: HashMap::new(),
+            pending_lookups: Vec::new(),
+            initial_bootstrap_finished: false,
         }
     }
 
@@ -132,6 +138,7 @@ impl DhtHandler {
                 if self.is_bootstrapped() {
                     self.handle_bootstrap_success().await;
                 }
+                self.handle_bootstrap_progress().await;
             }
             message = self.socket.recv() => {
                 match message {
@@ -438,7 +445,44 @@ impl DhtHandler {
         self.handle_check_table_refresh().await;
     }
 
+    // Once the initial bootstrap is over, start the lookups that were requested in the meantime.
+    // It is over when the bootstrap succeeded, or when an attempt has ended and left us with at
+    // least one good node to ask (which is all a bootstrap against routers achieves on a small
+    // network). An attempt that reached nobody leaves the lookups queued for the next attempt.
+    async fn handle_bootstrap_progress(&mut self) {
+        if self.initial_bootstrap_finished {
+            return;
+        }
+
+        let state = *self.bootstrap.state_rx.borrow();
+        let finished = match state {
+            bootstrap::State::Bootstrapped => true,
+            bootstrap::State::IdleBeforeRebootstrap => {
+                self.routing_table.lock().unwrap().num_good_nodes() > 0
+            }
+            _ => false,
+        };
+
+        if !finished {
+            return;
+        }
+
+        self.initial_bootstrap_finished = true;
+
+        for lookup in std::mem::take(&mut self.pending_lookups) {
+            self.handle_start_lookup(lookup).await;
+        }
+    }
+
     async fn handle_start_lookup(&mut self, lookup: StartLookup) {
+        // As documented for `MainlineDht::search`: if the initial bootstrap is still in progress,
+        // queue the lookup, it is started once the bootstrap has finished. Starting it now would
+        // run it on a still empty routing table and end it at once without any result.
+        if !self.initial_bootstrap_finished {
+            self.pending_lookups.push(lookup);
+            return;
+        }
+
         // Start the lookup right now if not bootstrapping
         let mid_generator = self.aid_generator.generate();
         let action_id = mid_generator.action_id();
